@@ -4,9 +4,9 @@
 
 #[cfg(not(target_family = "wasm"))]
 mod process_common;
-/// Verification hooks (feature `verif-hooks`): the capture loop and `join_capture` on caller-supplied input.
+/// Verification hook (feature `verif-hooks`): the capture loop on a caller-supplied reader.
 #[cfg(all(feature = "verif-hooks", not(target_family = "wasm")))]
-pub use process_common::{verif_join_capture, verif_read_captured_stream};
+pub use process_common::verif_read_captured_stream;
 
 #[cfg(windows)]
 mod windows;
